@@ -411,6 +411,9 @@ fn main() {
                 }
             }
 
+            if !codes.last().unwrap().is_empty() {
+                codes.push(Vec::new());
+            }
             if opt {
                 for (a, b) in point {
                     res.push_str(&*format!(
@@ -423,11 +426,8 @@ fn main() {
                 res.push_str(&*format!(
                     "
     state = {};",
-                    codes.len(),
+                    codes.len() - 1,
                 ));
-            }
-            if !codes.last().unwrap().is_empty() {
-                codes.push(Vec::new());
             }
         }
 
